@@ -65,11 +65,11 @@ PROPS = {
         'C04_check on (inline, parameterized) observation pairs and on substitution pairs.',
         ['oracle fact: ParseFloat rejects a text starting with a quote']),
     'C05': P(
-        ['C05_print_parse_roundtrip', 'C05_printed_tree_parses_to_itself', 'C05_value_list'],
+        ['C05_print_parse_roundtrip', 'C05_printed_tree_parses_to_itself', 'C05_printed_text_parses_to_the_tree', 'C05_value_list'],
         [('corpus', 0), ('trees', 8000)],
         [('corpus', 0), ('trees', 120000), ('enum', 5000)],
         PARSE,
-        'full at token level: for every spec tree with parentheses wherever the table requires them (and anywhere else) the parser run on its printed tokens accepts exactly the expected tree; composition with the lexer (printed text lexes to the printed tokens) is checked per case by the driver.',
+        'full: for every spec tree (any depth) with parentheses wherever the table requires them (and anywhere else) the parser loop accepts exactly the expected tree, Validate accepts it, and - for ASCII text whose leaf tokens lex to themselves - Parse of the printed text returns it. For non-ASCII leaves the lexer step is checked per case by the driver (generator printer = Spec.pr through the model lexer).',
         'random spec trees to depth 3 (quick) / 5 (thorough), minimal and redundant parenthesisation, three spacing styles; the driver checks generator printer = Spec.pr and implementation tree = Spec.want',
         'precedence enters only through prec = index in the generated toktype_order.',
         []),
